@@ -140,11 +140,13 @@ def taper(env, nx, ny, symmetry, ref_axis_pos):
 
 
 @job("c13.GeometryMesh_defaults", ("C13",), cfgs=product([dict(nx=3, ny=3), dict(nx=2, ny=3, _tier=T)], [dict(symmetry=True), dict(symmetry=False)],
-                                                          [dict(camber=0.0), dict(camber=0.05)]), cost=4)
-def geometry_mesh_defaults(env, nx, ny, symmetry, camber):
+                                                          [dict(camber=0.0), dict(camber=0.05)]) +
+     # full-span surfaces that are not centred on y = 0 (a wing modelled from the centreline outwards, a far-off surface)
+     [dict(nx=3, ny=3, symmetry=False, camber=0.0, yshift=2.0), dict(nx=2, ny=3, symmetry=False, camber=0.05, yshift=-3.5)], cost=4)
+def geometry_mesh_defaults(env, nx, ny, symmetry, camber, yshift=0.0):
     """the real GeometryMesh group with no design variable given: its output mesh equals the mesh of the surface
     dictionary (flat and cambered wings with built-in dihedral and sweep)"""
-    s = surface(nx=nx, ny=ny if symmetry else (ny if ny % 2 else ny + 1), symmetry=symmetry, camber=camber)
+    s = surface(nx=nx, ny=ny if symmetry else (ny if ny % 2 else ny + 1), symmetry=symmetry, camber=camber, yshift=yshift)
     for k in ("twist_cp", "thickness_cp"):
         s.pop(k, None)
     g = gsx.GroupSX(env, lambda mdl: mdl.add_subsystem("geom", cls("geometry.geometry_mesh.GeometryMesh")(surface=s), promotes=["*"]))
